@@ -186,8 +186,10 @@ def _as_fn_of(x, w, base):
         return [x & _mask(w)] * n
     if x is base:
         return list(range(n))
-    if x.op == 'lut' and x.args[0] is base:
-        return list(x.val)
+    lc = _lutc(x)
+    if lc is not None and lc[0].args[0] is base:
+        k = lc[1]
+        return [v ^ k for v in lc[0].val]
     if x.op == 'zext' and x.args[0] is base:
         return list(range(n))
     if x.op in ('eq',) and x.args[0] is base and x.args[1].op == 'const':
@@ -203,12 +205,24 @@ def _as_fn_of(x, w, base):
     return None
 
 
+def _lutc(x):
+    """x is lut or xor(lut, const) -> (lut node, const) else None"""
+    if x.op == 'lut':
+        return x, 0
+    if x.op == 'xor' and len(x.args) == 2 and x.args[0].op == 'lut' and x.args[1].op == 'const':
+        return x.args[0], x.args[1].val
+    return None
+
+
 def _lut_base(x):
     if isinstance(x, Term):
-        if x.op == 'lut':
-            return x.args[0]
-        if x.op == 'zext' and x.args[0].op == 'lut':
-            return x.args[0].args[0]
+        lc = _lutc(x)
+        if lc is not None:
+            return lc[0].args[0]
+        if x.op == 'zext':
+            lc = _lutc(x.args[0])
+            if lc is not None:
+                return lc[0].args[0]
     return None
 
 
@@ -226,17 +240,45 @@ def lut(tbl, base, w):
     if not isinstance(base, Term):
         return tbl[base] & _mask(w)
     assert base.w <= 8 and len(tbl) == (1 << base.w), (base, len(tbl))
+    if not RAW and not NOLUT:
+        lc = _lutc(base)
+        if lc is not None:
+            k = lc[1]
+            return lut([tbl[v ^ k] for v in lc[0].val], lc[0].args[0], w)
+        # base = simple function of another <=8-bit term: and/or/xor with a constant, constant shifts, not
+        if base.op in ('and', 'or', 'xor') and len(base.args) == 2 and base.args[1].op == 'const':
+            k = base.args[1].val
+            f = {'and': lambda i: i & k, 'or': lambda i: i | k, 'xor': lambda i: i ^ k}[base.op]
+            return lut([tbl[f(i)] for i in range(len(tbl))], base.args[0], w)
+        if base.op in ('shl', 'lshr') and base.args[1].op == 'const':
+            sh = base.args[1].val
+            bm = _mask(base.w)
+            f = (lambda i: (i << sh) & bm) if base.op == 'shl' else (lambda i: i >> sh)
+            return lut([tbl[f(i)] for i in range(len(tbl))], base.args[0], w)
+        if base.op == 'not':
+            bm = _mask(base.w)
+            return lut([tbl[bm & ~i] for i in range(len(tbl))], base.args[0], w)
     if not RAW:
-        if base.op == 'lut' and not NOLUT:
-            inner = base.val
-            return lut([tbl[v] for v in inner], base.args[0], w)
         feas = [tbl[i] & _mask(w) for i in range(len(tbl)) if _feasible(base, i)]
         if feas and all(v == feas[0] for v in feas):
             return feas[0]
         if len(tbl) == (1 << w) and w == base.w and all(tbl[i] == i for i in range(len(tbl))):
             return base
     m = _mask(w)
-    tbl = _intern_table([v & m for v in tbl])
+    if not RAW and not NOLUT:
+        # canonical form: the first selectable entry is 0, the rest of the constant is an xor operand
+        first = None
+        for i in range(len(tbl)):
+            if _feasible(base, i):
+                first = tbl[i] & m
+                break
+        if first:
+            return _ac('xor', w, [lut([(v ^ first) & m for v in tbl], base, w), first])
+    if RAW:
+        tbl = _intern_table([v & m for v in tbl])
+    else:
+        # entries the base can never select (by its known bits) are canonicalised to 0
+        tbl = _intern_table([(v & m) if _feasible(base, i) else 0 for i, v in enumerate(tbl)])
     k1 = m
     k0 = m
     for i, v in enumerate(tbl):
@@ -266,16 +308,21 @@ def _fold2(fn, w_out, a, wa, b, wb):
 
 def _as_fn_of_z(x, w, base):
     """_as_fn_of that also looks through zext(lut)."""
-    if isinstance(x, Term) and x.op == 'zext' and x.args[0].op == 'lut' and x.args[0].args[0] is base:
-        return list(x.args[0].val)
+    if isinstance(x, Term) and x.op == 'zext':
+        lc = _lutc(x.args[0])
+        if lc is not None and lc[0].args[0] is base:
+            return [v ^ lc[1] for v in lc[0].val]
     return _as_fn_of(x, w, base)
 
 
 def _fold1(fn, w_out, a, wa):
     if RAW or NOLUT:
         return None
-    if isinstance(a, Term) and a.op == 'lut':
-        return lut([fn(v) for v in a.val], a.args[0], w_out)
+    if isinstance(a, Term):
+        lc = _lutc(a)
+        if lc is not None:
+            k = lc[1]
+            return lut([fn(v ^ k) for v in lc[0].val], lc[0].args[0], w_out)
     return None
 
 
@@ -369,13 +416,6 @@ def _ac(op, w, xs):
     # known bits
     if not out:
         return acc
-    # fold constant into single lut
-    if len(out) == 1 and out[0].op == 'lut' and not NOLUT:
-        ident = 0 if op in ('xor', 'or') else m
-        if acc != ident:
-            f = {'xor': lambda v: v ^ acc, 'and': lambda v: v & acc, 'or': lambda v: v | acc}[op]
-            return lut([f(v) for v in out[0].val], out[0].args[0], w)
-        return out[0]
     if op == 'xor':
         k0, k1 = m & ~acc, acc
         for t in out:
@@ -614,6 +654,8 @@ def shl(w, a, s):
             r = _fold1(lambda v: (v << s) & m, w, a, w)
             if r is not None:
                 return r
+            if a.op == 'xor' and not NOLUT and any(x.op == 'lut' for x in a.args):
+                return _ac('xor', w, [shl(w, _u(x), s) for x in a.args])
         k0 = ((a.k0 << s) | _mask(s)) & m
         k1 = (a.k1 << s) & m
         return _fin('shl', w, (a, const_term(w, s)), None, k0, k1)
@@ -642,6 +684,8 @@ def lshr(w, a, s):
             r = _fold1(lambda v: v >> s, w, a, w)
             if r is not None:
                 return r
+            if a.op == 'xor' and not NOLUT and any(x.op == 'lut' for x in a.args):
+                return _ac('xor', w, [lshr(w, _u(x), s) for x in a.args])
         k0 = ((a.k0 >> s) | (m & ~(m >> s))) & m
         k1 = a.k1 >> s
         return _fin('lshr', w, (a, const_term(w, s)), None, k0, k1)
@@ -676,6 +720,8 @@ def zext(w_from, w_to, a):
             return zext(a.args[0].w, w_to, a.args[0])
         if a.op == 'lut' and not NOLUT:
             return lut(list(a.val), a.args[0], w_to)
+        if a.op == 'xor' and not NOLUT and any(x.op == 'lut' for x in a.args):
+            return _ac('xor', w_to, [zext(w_from, w_to, _u(x)) for x in a.args])
     hi = _mask(w_to) & ~_mask(w_from)
     return _fin('zext', w_to, (a,), None, a.k0 | hi, a.k1)
 
@@ -728,6 +774,8 @@ def extract_bit(w, a, i):
     """bit i of a as a width-1 value"""
     if not isinstance(a, Term):
         return (a >> i) & 1
+    if w <= 8 and not RAW and not NOLUT:
+        return lut([(v >> i) & 1 for v in range(1 << w)], a, 1)
     return trunc(w, 1, lshr(w, a, i)) if i else trunc(w, 1, a)
 
 
@@ -882,6 +930,10 @@ def ite(w, c, a, b):
             base = _lut_base(b)
         if base is None:
             base = _lut_base(c)
+    if base is None and c.op == 'eq' and not NOLUT and not isinstance(a, Term) and not isinstance(b, Term):
+        for x in c.args:
+            if x.op != 'const' and x.w <= 8:
+                base = x
     if base is None and c.op == 'eq' and not NOLUT:
         for x in c.args:
             if x.op != 'const' and x.w <= 8 and (_lut_base(a) is x or _lut_base(b) is x):
@@ -893,6 +945,11 @@ def ite(w, c, a, b):
             tb = _as_fn_of_z(b, w, base) if ta is not None else None
             if ta is not None and tb is not None:
                 return lut([x if g else y for g, x, y in zip(tc, ta, tb)], base, w)
+    # two luts over the same base under a guard that is not a function of it: factor the common part
+    if not NOLUT and isinstance(a, Term) and isinstance(b, Term) and a.op == 'lut' and b.op == 'lut' \
+            and a.args[0] is b.args[0]:
+        diff = lut([x ^ y for x, y in zip(a.val, b.val)], a.args[0], w)
+        return bxor(w, b, ite(w, c, diff, 0))
     # ite(c, x, x ^ y) -> x ^ ite(c, 0, y)
     ax = _xor_parts(a, w)
     bx = _xor_parts(b, w)
